@@ -37,6 +37,12 @@ def run_rules(prop, F, tier):
         else:
             try:
                 r = getattr(mod, fn)(F, **kwargs)
+            except CheckError as e:
+                # this rule cannot judge the tree (anchor gone, shape it refuses to guess about): the other rules still run; the
+                # property's verdict is VIOLATION if any of them found one, otherwise ERROR (fail closed)
+                from vlib.report import RuleResult
+                r = RuleResult("%s.%s" % (modname, fn), "rule could not be evaluated")
+                r.error = str(e)
             except factsmod.AnchorInlined as e:
                 # the function this rule is about was inlined into its caller: the clause is not decided (no alarm, no proof)
                 from vlib.report import RuleResult
@@ -51,6 +57,24 @@ def run_rules(prop, F, tier):
         else:
             results.append(r)
     return results
+
+
+def closed_failures(prop, results):
+    """reasons to fail closed: rules that could not be evaluated, counts below their floors (a violation found by another
+    rule takes precedence over these: see main)"""
+    out = [("%s: %s" % (r.rule, r.error)) for r in results if getattr(r, "error", None)]
+    fl = report.floors()
+    for r in results:
+        if getattr(r, "error", None):
+            continue
+        for name, n in r.counts.items():
+            key = "%s:%s.%s" % (prop, r.rule, name)
+            if key in fl and n < fl[key]:
+                out.append("count below floor: %s = %d < %d" % (key, n, fl[key]))
+        key = "%s:%s.#obligations" % (prop, r.rule)
+        if key in fl and r.obligations < fl[key]:
+            out.append("obligations below floor: %s = %d < %d" % (key, r.obligations, fl[key]))
+    return out
 
 
 def main():
@@ -78,16 +102,7 @@ def main():
             extra_cov["selftest"] = st
             if st.get("failed"):
                 raise CheckError("rule self-test failed: %s" % st["failed"][:5])
-        # floors: fail closed when a rule saw fewer instances than confirmed by hand
-        fl = report.floors()
-        for r in results:
-            for name, n in r.counts.items():
-                key = "%s:%s.%s" % (prop, r.rule, name)
-                if key in fl and n < fl[key]:
-                    raise CheckError("count below floor: %s = %d < %d" % (key, n, fl[key]))
-            key = "%s:%s.#obligations" % (prop, r.rule)
-            if key in fl and r.obligations < fl[key]:
-                raise CheckError("obligations below floor: %s = %d < %d" % (key, r.obligations, fl[key]))
+        deferred = closed_failures(prop, results)
     except CheckError as e:
         print("ERROR property=%s %s" % (prop, e))
         return 2
@@ -109,6 +124,11 @@ def main():
                 matched.append((v, kf))
             else:
                 viols.append(v)
+    if deferred and not viols:
+        # nothing contradicts the property, but a rule could not be evaluated or saw fewer instances than confirmed by
+        # hand: fail closed
+        print("ERROR property=%s %s" % (prop, deferred[0]))
+        return 2
     # replay: restrict to one key
     if args.replay:
         want = json.load(open(args.replay)).get("keys", [])
